@@ -1736,8 +1736,17 @@ def setitem_array(out_name, array, indices, value):
             implied_position[dim] = dim - n_int_before
     reverse = [implied_position[i] for i in reverse]
 
-    # Empty slices can only be assigned size 1 values
-    if 0 in implied_shape and value_shape and max(value_shape) > 1:
+    # Nothing is assigned to an empty selection, but the value must still be
+    # broadcastable to it
+    if 0 in implied_shape and not all(
+        b == 1 or b == a or math.isnan(a) or math.isnan(b)
+        for a, b in zip(
+            implied_shape[::-1],
+            value_shape[len(value_shape) - len(implied_shape) :][::-1]
+            if len(value_shape) > len(implied_shape)
+            else value_shape[::-1],
+        )
+    ):
         raise ValueError(
             f"shape mismatch: value array of shape {value_shape} "
             "could not be broadcast to indexing result "
